@@ -119,7 +119,9 @@ func (t *dockerTransport) command(command, workingDirectory, user string) (*exec
 	}
 
 	// Set the container name (this is stored as the Hostname field in the URL).
-	dockerArguments = append(dockerArguments, t.container)
+	// We terminate option processing explicitly first so that a container name
+	// beginning with a dash can't be interpreted as an option.
+	dockerArguments = append(dockerArguments, "--", t.container)
 
 	// Lex the command that we want to run since Docker, unlike SSH, wants the
 	// commands and arguments separately instead of as a single argument. All
@@ -321,9 +323,9 @@ func (t *dockerTransport) changeContainerStatus(stop bool) error {
 
 	// Set up the stop (or start) command.
 	if stop {
-		dockerArguments = append(dockerArguments, "stop", t.container)
+		dockerArguments = append(dockerArguments, "stop", "--", t.container)
 	} else {
-		dockerArguments = append(dockerArguments, "start", t.container)
+		dockerArguments = append(dockerArguments, "start", "--", t.container)
 	}
 
 	// Create the command.
@@ -410,7 +412,7 @@ func (t *dockerTransport) Copy(localPath, remoteName string) error {
 	dockerArguments = append(dockerArguments, t.daemonConnectionFlags...)
 
 	// Set up the copy command.
-	dockerArguments = append(dockerArguments, "cp", localPath, containerPath)
+	dockerArguments = append(dockerArguments, "cp", "--", localPath, containerPath)
 
 	// Create the command.
 	dockerCommand, err := docker.Command(context.Background(), dockerArguments...)
